@@ -164,6 +164,14 @@ theorem effective_has_conf (d : Dict) (v : PyVal) (h : dlast d kConf = some v)
     · exact h1
   · exact h1
 
+theorem findIdx?_agree {α : Type} (l : List α) (p q : α → Bool) (h : ∀ x ∈ l, p x = q x) :
+    l.findIdx? p = l.findIdx? q := by
+  induction l with
+  | nil => rfl
+  | cons a t ih =>
+    simp only [List.findIdx?_cons, h a (by simp)]
+    rw [ih (fun x hx => h x (by simp [hx]))]
+
 /-- the stages of a successful `loadAll` -/
 theorem loadAll_ok (inp : Input) (s : Dict) (h : loadAll inp = .ok s) :
     ∃ s0 cli0 s1, construct inp = .ok s0 ∧ cliDict inp.cli = .dict cli0 ∧
